@@ -58,6 +58,8 @@ def required_for(kind):
         req += ["tlv present", "crc+tlv"]
     if kind == "nak":
         req += ["segment requests"]
+    if kind in ("finished", "metadata", "nak"):
+        req += ["repeated list element", ">= 4 list elements", "data field > 255 octets"]
     return req
 
 
@@ -106,6 +108,34 @@ def check_overwidth(p):
         return bytes(M.build_pdu(q).pack())
 
     expect_raise(devs, f"overwidth.{p['kind']}.{p['_field']}", mk, accept=(Exception,))
+    # the refused pack leaves the object usable: once the value fits again (plain attribute assignment) it packs to the reference octets
+    kind, fld = p["kind"], p["_field"]
+    if (kind, fld) in (("eof", "size"), ("keepalive", "progress"), ("nak", "start"), ("nak", "end")):
+        x = M.build_pdu(q) if kind != "nak" else None
+        if kind == "nak":
+            try:
+                x = M.build_pdu(q)
+            except Exception:  # noqa: BLE001 - NAK may refuse out-of-range scopes at construction already
+                return devs
+        try:
+            x.pack()
+        except Exception:  # noqa: BLE001 - the refusal checked above
+            pass
+        good = dict(q)
+        fits = 0xFFFFFFFF if not q["conf"]["large"] else 0x0102030405060708
+        if kind == "eof":
+            x.file_size = fits
+            good["size"] = fits
+        elif kind == "keepalive":
+            x.progress = fits
+            good["progress"] = fits
+        elif fld == "start":
+            x.start_of_scope = fits
+            good["start"] = fits
+        else:
+            x.end_of_scope = fits
+            good["end"] = fits
+        eq(devs, f"overwidth.{kind}.{fld}.pack_after_refusal_and_fix", bytes(x.pack()), M.ref_pdu(good))
     return devs
 
 
@@ -144,7 +174,7 @@ CLAUSES = [
         strategy=(lambda kind=kind: M.st_pdu(kind)),
         check=check_pdu,
         nontrivial=M.pdu_nontrivial,
-        classify=M.pdu_classes,
+        classify=lambda p: M.pdu_classes(p) + (["data field > 255 octets"] if len(M.ref_pdu(p)) - R.header_len(p["conf"]) > 255 else []),
         required=required_for(kind),
         n={"quick": 400, "thorough": 4000},
     )
